@@ -16,6 +16,7 @@ type crashOpts struct {
 	Class      string
 	ImgCap     int
 	SparseRead bool // reads of never-written buckets (sparse mode creates files on read)
+	Merge      bool // RAM modes: Merge calls between transactions (no lists / positional sorted-set removals then)
 }
 
 // runCrashWorkload executes a monitored history and checks every crash image of it.
@@ -54,6 +55,14 @@ func runCrashWorkload(c *CaseCtx, o crashOpts) {
 		return
 	}
 	g := &Gen{R: r, U: u, Cfg: cfg, KV: true, List: ds, Set: ds, ZSet: ds, TTL: true, MaxOps: 5}
+	merging := o.Merge && cfg.Mode != 2
+	if merging {
+		// what Merge (and a crash inside it) does to lists and to positional sorted-set removals is the recorded
+		// finding of C15/C16; the transactions after a Merge are what this workload is about
+		g.List, g.NoZPop = false, true
+		o.Class += "-merge"
+		run.Class = o.Class
+	}
 	failed, bursts := 0, 0
 	step := func(t TxSpec, expectFail bool) {
 		cur := len(cr.States) - 1
@@ -95,6 +104,19 @@ func runCrashWorkload(c *CaseCtx, o crashOpts) {
 				step(t, false)
 			}
 			bursts++
+		case merging && x >= 90 && run.Files() >= 2:
+			// Merge is not a step of the model: the state before and after it is the same
+			cr.SetStep(len(cr.States)-1, false, "merge")
+			c.Log("merge (%d files)", run.Files())
+			merr, p := mergeNoPanic(run)
+			if p != "" {
+				c.Violate("panic:Merge:"+p, o.Class, "Merge panicked: "+p)
+				return
+			}
+			if merr == nil {
+				c.Stat("merges_succeeded", 1)
+			}
+			run.CheckObs("after-merge")
 		case o.SparseRead && x < 36:
 			cr.SetStep(len(cr.States)-1, false, "view")
 			run.Tx(TxSpec{Mode: "view", Ops: []Op{{K: "GetAll", B: "never"}, {K: "Get", B: "never", Key: []byte("k")}, {K: "PrefixScan", B: "never", Key: []byte("k"), J: -1}}}, false)
@@ -139,7 +161,7 @@ func init() {
 		NCases: func(t string) int { return tier(t, 32, 640) },
 		Run: func(c *CaseCtx) {
 			runCrashWorkload(c, crashOpts{Modes: []int{0, 0, 1, 2}, NTx: 12 + c.Rng.Intn(25), Failed: true, Burst: c.Case%3 == 0, Reopen: true,
-				Mode: "state", Class: "crash", SparseRead: true})
+				Mode: "state", Class: "crash", SparseRead: true, Merge: c.Case%4 == 1})
 		},
 		Rule: "case = one monitored workload (all structures in KeyVal mode, KV in KeyOnly/sparse; failing, rolled-back and oversized transactions; bursts of back-to-back transactions; reopen points; FileIO/MMap; SyncEnable on/off); " +
 			"EVERY file-mutation event of the execution (open, truncate, write, sync, close, remove as reported by the verif hook) is a crash point: the directory as it is just before the event, and for each write every torn prefix at the record-field boundaries, is re-opened with the real Open and fully observed; " +
@@ -157,7 +179,7 @@ func init() {
 		NCases: func(t string) int { return tier(t, 32, 640) },
 		Run: func(c *CaseCtx) {
 			runCrashWorkload(c, crashOpts{Power: true, Modes: []int{0, 0, 1, 2}, NTx: 10 + c.Rng.Intn(20), Failed: c.Case%2 == 0, Reopen: true,
-				Mode: "state", Class: "power-loss"})
+				Mode: "state", Class: "power-loss", Merge: c.Case%4 == 1})
 		},
 		Rule: "case = one monitored workload with SyncEnable=true (FileIO and MMap; KeyVal, KeyOnly and sparse); a durable shadow keeps, per file, its content at its last completed sync; at EVERY file-mutation event power-loss images are built: " +
 			"durable-only (never-synced files absent), never-synced files zero-filled, per-file mixes of durable and current content, the last unsynced write torn, an unsynced removal undone; each image is re-opened and fully observed; " +
